@@ -11,7 +11,8 @@ for D in $SEEDS; do
   S=$(basename $D); P=${S%%-*}
   if ! git -C /repo apply --check /verif/seeded/$S/patch.diff 2>/dev/null; then echo -e "$S\t-\tPATCH-DOES-NOT-APPLY" | tee -a $OUT; continue; fi
   git -C /repo apply /verif/seeded/$S/patch.diff
-  for C in $P ${REL[$P]}; do
+  CL="$P ${REL[$P]}"; [ -n "$OWN_ONLY" ] && CL="$P"
+  for C in $CL; do
     R=$(./check $C quick 2>&1 | grep -E "^(VIOLATION|OK)" | head -1)
     case "$R" in
       OK*) V=missed;;
